@@ -712,7 +712,7 @@ template<typename T> static std::string o_trunc(const std::vector<std::string>& 
   cuts.push_back(file.size());
   for (size_t cut : cuts)
     for (int smode = 0; smode < 3; ++smode) {
-      hv::cpu_alarm(20);
+      hv::cpu_alarm(120);
       try { read_and_setup<T>(file.substr(0, cut), smode, via, std::is_same<T, float>::value ? NAN_Z : -1); ++n_ok; }
       catch (std::exception&) {}
       hv::cpu_alarm(0);
@@ -743,7 +743,7 @@ template<typename T> static std::string o_fuzz(const std::vector<std::string>& w
     if (rnd() % 5 == 0) file.resize(rnd() % (file.size() + 1));
     if ((kAsan && huge_alloc(file)) || long_running(file)) continue;
     for (int smode = 0; smode < 3; ++smode) {
-      hv::cpu_alarm(20);
+      hv::cpu_alarm(120);
       try { read_and_setup<T>(file, smode, via, std::is_same<T, float>::value ? NAN_Z : -1); }
       catch (std::exception&) {}
       hv::cpu_alarm(0);
@@ -782,7 +782,7 @@ static std::string gz_cmd(const std::vector<std::string>& w, bool want_hash) {
   std::string path = tmp_path(".gz");
   write_file(path, bytes);
   std::string res;
-  hv::cpu_alarm(10);
+  hv::cpu_alarm(60);
   try {
     MaybeGzipped in(path);
     CharArray a = in.uncompress_into_buffer();
